@@ -16,31 +16,39 @@ package file
 //@ func (*SpokFile).run
 //@ requires runner != nil && distinctNames(runOrder)
 //@ requires I01(cp(s))
-//@ modifies fexists, fdata, last, ranCount, fswrites
+//@ modifies fexists, fdata, last, ranCount, fswrites, fsid, dgSeq, fsSeq
 //@ ensures [C19,writes-only-inside-the-cache-directory] forall p string :: {fswrites[p]} fswrites[p] && !old(fswrites)[p] ==> ancOrSelf(join2(s.Dir, ".spok"), p)
 //@ crashinv [C10] I01(cp(s))
 //@ at call Run#0: assert [C10,invalidated-before-run] diskOK(cp(s)) ==> diskGet(cp(s), taskToRun.Name) == ""
 //@ ensures [I01] I01(cp(s))
 //@ ensures [shape-err] result1 != nil ==> len(result0) == 0
 //@ ensures [shape] result1 == nil ==> len(result0) == len(runOrder) && forall i int :: {result0[i]} 0 <= i && i < len(result0) ==> result0[i].Task == runOrder[i].Name
-//@ ensures [C01] result1 == nil ==> forall i int :: {result0[i]} 0 <= i && i < len(result0) && result0[i].Skipped ==> last[runOrder[i].Name] != "" && last[runOrder[i].Name] == cur(mapval(s.Globs), runOrder[i])
+//@ ensures [C01] result1 == nil ==> forall i int :: {result0[i]} 0 <= i && i < len(result0) && result0[i].Skipped ==> last[runOrder[i].Name] != "" && last[runOrder[i].Name] == dgSeq[i]
 //@ ensures [C14] result1 == nil && force ==> forall i int :: {result0[i]} 0 <= i && i < len(result0) ==> !result0[i].Skipped
 //@ ensures [C02-nodeps] result1 == nil ==> forall i int :: {result0[i]} 0 <= i && i < len(result0) && len(inputs(mapval(s.Globs), runOrder[i])) == 0 ==> !result0[i].Skipped
-//@ ensures [C02-skip] result1 == nil && !force && old(diskOK(cp(s))) && ioOK ==> forall i int :: {result0[i]} 0 <= i && i < len(result0) && len(inputs(mapval(s.Globs), runOrder[i])) > 0 && old(diskGet(cp(s), runOrder[i].Name)) != "" && old(diskGet(cp(s), runOrder[i].Name)) == cur(mapval(s.Globs), runOrder[i]) ==> result0[i].Skipped
-//@ ensures [C02-persist] result1 == nil ==> diskOK(cp(s)) && forall i int :: {result0[i]} 0 <= i && i < len(result0) && !result0[i].Skipped && len(inputs(mapval(s.Globs), runOrder[i])) > 0 && cmdsOk(result0[i].CommandResults, len(result0[i].CommandResults)) ==> diskGet(cp(s), runOrder[i].Name) == cur(mapval(s.Globs), runOrder[i])
+//@ ensures [C02-skip] result1 == nil && !force && old(diskOK(cp(s))) && ioOK ==> forall i int :: {result0[i]} 0 <= i && i < len(result0) && len(inputs(mapval(s.Globs), runOrder[i])) > 0 && old(diskGet(cp(s), runOrder[i].Name)) != "" && old(diskGet(cp(s), runOrder[i].Name)) == dgSeq[i] ==> result0[i].Skipped
+//@ ensures [C02-persist] result1 == nil ==> diskOK(cp(s)) && forall i int :: {result0[i]} 0 <= i && i < len(result0) && !result0[i].Skipped && len(inputs(mapval(s.Globs), runOrder[i])) > 0 && cmdsOk(result0[i].CommandResults, len(result0[i].CommandResults)) ==> diskGet(cp(s), runOrder[i].Name) == dgSeq[i]
 //@ ensures [C09-notcached] result1 == nil ==> forall i int :: {result0[i]} 0 <= i && i < len(result0) && !result0[i].Skipped && !cmdsOk(result0[i].CommandResults, len(result0[i].CommandResults)) ==> diskGet(cp(s), runOrder[i].Name) == "" && last[runOrder[i].Name] == ""
 //@ ensures [C03,exec-once] result1 == nil ==> forall i int :: {result0[i]} 0 <= i && i < len(result0) ==> ranCount[runOrder[i].Name] == old(ranCount)[runOrder[i].Name] + (result0[i].Skipped ? 0 : 1)
-//@ at return Run#0: ghost last = store(last, taskToRun.Name, (err == nil && cmdsOk(result, len(result)) ? cur(mapval(s.Globs), taskToRun) : ""))
-//@ loop 0: invariant 0 <= $i && $i <= len(runOrder) && len(results) == $i
+//@ at return Hash#0: ghost dgSeq = snoc(dgSeq, currentDigest)
+//@ at return Hash#0: ghost fsSeq = snoc(fsSeq, fsid)
+//@ at return Hash#0: assert [C01,digest-computed-now] err == nil ==> len(dgSeq) == len(results) + 1 && len(fsSeq) == len(results) + 1 && dgSeq[len(results)] == DG(fsSeq[len(results)], inputs(mapval(s.Globs), taskToRun)) && fsSeq[len(results)] == fsid
+//@ at call Run#0: assert [C01,recorded-digest-is-of-the-inputs-the-task-starts-on] dgSeq[len(results)] == cur(mapval(s.Globs), taskToRun) && fsSeq[len(results)] == fsid
+//@ ensures [C01,digest-is-of-the-inputs-at-decision-time] result1 == nil ==> len(dgSeq) == len(result0) && len(fsSeq) == len(result0) && forall i int :: {result0[i]} {dgSeq[i]} 0 <= i && i < len(result0) ==> dgSeq[i] == DG(fsSeq[i], inputs(mapval(s.Globs), runOrder[i]))
+//@ at return Run#0: ghost last = store(last, taskToRun.Name, (err == nil && cmdsOk(result, len(result)) ? dgSeq[len(results)] : ""))
+//@ at entry: ghost dgSeq = noStrs()
+//@ at entry: ghost fsSeq = noInts()
+//@ loop 0: invariant 0 <= $i && $i <= len(runOrder) && len(results) == $i && len(dgSeq) == $i && len(fsSeq) == $i
 //@ loop 0: invariant forall p string :: {fswrites[p]} fswrites[p] && !old(fswrites)[p] ==> ancOrSelf(join2(s.Dir, ".spok"), p)
 //@ loop 0: invariant CacheInv(cachedState) && memIsDisk(cachedState, cp(s)) && I01(cp(s))
 //@ loop 0: invariant forall k int :: {results[k]} 0 <= k && k < $i ==> results[k].Task == runOrder[k].Name
 //@ loop 0: invariant forall k int :: {results[k]} 0 <= k && k < $i && results[k].Skipped ==> !force && len(inputs(mapval(s.Globs), runOrder[k])) > 0
 //@ loop 0: invariant forall k int :: {results[k]} 0 <= k && k < $i && results[k].Skipped ==> last[runOrder[k].Name] != ""
-//@ loop 0: invariant forall k int :: {results[k]} 0 <= k && k < $i && results[k].Skipped ==> last[runOrder[k].Name] == cur(mapval(s.Globs), runOrder[k])
+//@ loop 0: invariant forall k int :: {results[k]} 0 <= k && k < $i && results[k].Skipped ==> last[runOrder[k].Name] == dgSeq[k]
+//@ loop 0: invariant forall k int :: {results[k]} {dgSeq[k]} 0 <= k && k < $i ==> dgSeq[k] == DG(fsSeq[k], inputs(mapval(s.Globs), runOrder[k]))
 //@ loop 0: invariant old(diskOK(cp(s))) && ioOK ==> forall j int :: {runOrder[j]} $i <= j && j < len(runOrder) ==> diskGet(cp(s), runOrder[j].Name) == old(diskGet(cp(s), runOrder[j].Name))
-//@ loop 0: invariant !force && old(diskOK(cp(s))) && ioOK ==> forall k int :: {results[k]} 0 <= k && k < $i && len(inputs(mapval(s.Globs), runOrder[k])) > 0 && old(diskGet(cp(s), runOrder[k].Name)) != "" && old(diskGet(cp(s), runOrder[k].Name)) == cur(mapval(s.Globs), runOrder[k]) ==> results[k].Skipped
-//@ loop 0: invariant forall k int :: {results[k]} 0 <= k && k < $i && !results[k].Skipped && len(inputs(mapval(s.Globs), runOrder[k])) > 0 && cmdsOk(results[k].CommandResults, len(results[k].CommandResults)) ==> diskGet(cp(s), runOrder[k].Name) == cur(mapval(s.Globs), runOrder[k])
+//@ loop 0: invariant !force && old(diskOK(cp(s))) && ioOK ==> forall k int :: {results[k]} 0 <= k && k < $i && len(inputs(mapval(s.Globs), runOrder[k])) > 0 && old(diskGet(cp(s), runOrder[k].Name)) != "" && old(diskGet(cp(s), runOrder[k].Name)) == dgSeq[k] ==> results[k].Skipped
+//@ loop 0: invariant forall k int :: {results[k]} 0 <= k && k < $i && !results[k].Skipped && len(inputs(mapval(s.Globs), runOrder[k])) > 0 && cmdsOk(results[k].CommandResults, len(results[k].CommandResults)) ==> diskGet(cp(s), runOrder[k].Name) == dgSeq[k]
 //@ loop 0: invariant forall k int :: {results[k]} 0 <= k && k < $i && !results[k].Skipped && !cmdsOk(results[k].CommandResults, len(results[k].CommandResults)) ==> diskGet(cp(s), runOrder[k].Name) == "" && last[runOrder[k].Name] == ""
 //@ loop 0: invariant forall k int :: {results[k]} 0 <= k && k < $i ==> ranCount[runOrder[k].Name] == old(ranCount)[runOrder[k].Name] + (results[k].Skipped ? 0 : 1)
 //@ loop 0: invariant forall j int :: {runOrder[j]} $i <= j && j < len(runOrder) ==> ranCount[runOrder[j].Name] == old(ranCount)[runOrder[j].Name]
@@ -101,7 +109,7 @@ package file
 //@ func (*SpokFile).Run
 //@ props C03 C09 C01 C02 C14 C05
 //@ requires runner != nil && TasksInv(s) && I01(cp(s)) && s.Globs != nil && GlobsCurrent(s)
-//@ modifies fexists, fdata, last, ranCount, dagV, dagE, dagItem, dagN, qpos, lastGraph, runPhase, mapOf(s.Globs), fswrites, lastForce
+//@ modifies fexists, fdata, last, ranCount, dagV, dagE, dagItem, dagN, qpos, lastGraph, runPhase, mapOf(s.Globs), fswrites, lastForce, fsid, dgSeq, fsSeq
 //@ ensures [C19,writes-only-inside-the-cache-directory] forall p string :: {fswrites[p]} fswrites[p] && !old(fswrites)[p] ==> ancOrSelf(join2(s.Dir, ".spok"), p)
 //@ at entry: ghost runPhase = 0
 //@ at entry: ghost lastForce = force
@@ -117,7 +125,7 @@ package file
 //@ ensures [C03,deps-first] result1 == nil ==> forall i int, k int :: {s.Tasks[result0[i].Task].TaskDependencies[k]} 0 <= i && i < len(result0) && 0 <= k && k < len(s.Tasks[result0[i].Task].TaskDependencies) ==> 0 <= sortPos(lastGraph, s.Tasks[result0[i].Task].TaskDependencies[k]) && sortPos(lastGraph, s.Tasks[result0[i].Task].TaskDependencies[k]) < i && result0[sortPos(lastGraph, s.Tasks[result0[i].Task].TaskDependencies[k])].Task == s.Tasks[result0[i].Task].TaskDependencies[k]
 //@ ensures [C03,once] result1 == nil ==> forall i int, j int :: {result0[i], result0[j]} 0 <= i && i < j && j < len(result0) ==> result0[i].Task != result0[j].Task
 //@ ensures [C09,notcached] result1 == nil ==> forall i int :: {result0[i]} 0 <= i && i < len(result0) && !result0[i].Skipped && !cmdsOk(result0[i].CommandResults, len(result0[i].CommandResults)) ==> diskGet(cp(s), result0[i].Task) == "" && last[result0[i].Task] == ""
-//@ ensures [C01,skip-means-uptodate] result1 == nil ==> forall i int :: {result0[i]} 0 <= i && i < len(result0) && result0[i].Skipped ==> last[result0[i].Task] != "" && last[result0[i].Task] == cur(mapval(s.Globs), s.Tasks[result0[i].Task])
+//@ ensures [C01,skip-means-uptodate] result1 == nil ==> forall i int :: {result0[i]} 0 <= i && i < len(result0) && result0[i].Skipped ==> last[result0[i].Task] != "" && last[result0[i].Task] == dgSeq[i] && dgSeq[i] == DG(fsSeq[i], inputs(mapval(s.Globs), s.Tasks[result0[i].Task]))
 //@ loop 0: invariant 0 <= $i && $i <= len(runOrder)
 //@ loop 0: decreases len(runOrder) - $i
 
@@ -158,7 +166,7 @@ package file
 //@ func New
 //@ props C03 C13 C05 C12
 //@ requires NodesOK(tree.Nodes)
-//@ modifies taskIdx
+//@ modifies taskIdx, fsid, execRes
 //@ at return HasTask#0: ghost taskIdx = store(taskIdx, task.Name, $i)
 //@ ensures [C03,defining-node-index] result1 == nil ==> forall k int :: {tree.Nodes[k]} 0 <= k && k < len(tree.Nodes) && nodeType(tree.Nodes[k]) == ast.NodeTask ==> taskIdx[tname(tree.Nodes[k])] == k
 //@ ensures [shape] result1 == nil ==> result0 != nil && fresh(result0) && result0.Dir == root && result0.Path == join2(root, "spokfile") && result0.Vars != nil && result0.Tasks != nil && result0.Globs != nil && fresh(result0.Globs)
